@@ -6,24 +6,24 @@ import random
 from harness import coreenc, coregen, coreprops, sim
 
 PROFILES = {
-    "C01": {"recipes": {"singleton_set": 0.04}, "ops": {"die": 0.14, "xkill": 0.06, "check": 0.2, "wake": 0.3},
+    "C01": {"recipes": {"singleton_set": 0.04}, "set_np": 0.5, "max_age": 0.12, "ops": {"die": 0.14, "xkill": 0.06, "check": 0.2, "wake": 0.3},
             "req": {"incr": 0.3, "set": 0.12, "ssr": 0.15, "reload": 0.15, "kill": 0.05, "signal": 0.02, "rm": 0.01, "add": 0.02, "quit": 0.0, "ro": 0.05}},
     "C02": {"eperm": 0.06, "stubborn": 0.2, "on_demand": 0.3, "recipes": {"unsignalable_stop": 0.03, "on_demand_stop": 0.12, "pattern_subset": 0.05}, "ops": {"die": 0.1, "fault": 0.08, "check": 0.15, "sockev": 0.05},
             "req": {"ssr": 0.4, "reload": 0.05, "incr": 0.1, "set": 0.12, "kill": 0.07, "signal": 0.03, "rm": 0.08, "add": 0.03, "quit": 0.02, "ro": 0.03}},
-    "C03": {"eperm": 0.06, "stubborn": 0.25, "recipes": {"children_vanish": 0.06}, "ops": {"wake": 0.5, "die": 0.06, "adv": 0.08},
+    "C03": {"eperm": 0.06, "stubborn": 0.25, "max_age": 0.15, "set_hooks": 0.1, "recipes": {"children_vanish": 0.06}, "ops": {"wake": 0.5, "die": 0.06, "adv": 0.08},
             "req": {"ssr": 0.3, "reload": 0.12, "incr": 0.15, "set": 0.08, "kill": 0.22, "signal": 0.02, "rm": 0.03, "add": 0.01, "quit": 0.01, "ro": 0.02}},
-    "C04": {"eperm": 0.06, "exec_fail": 0.2, "hooks": True, "recipes": {"unsignalable_stop": 0.03, "untracked_zombies": 0.08, "on_demand_stop": 0.05, "stopped_worker": 0.04, "sequential_reload_death": 0.03, "reap_veto": 0.05}, "ops": {"die": 0.1, "fault": 0.08, "check": 0.2},
+    "C04": {"eperm": 0.06, "exec_fail": 0.2, "hooks": True, "max_age": 0.15, "stubborn": 0.15, "recipes": {"unsignalable_stop": 0.03, "untracked_zombies": 0.08, "on_demand_stop": 0.05, "stopped_worker": 0.04, "sequential_reload_death": 0.03, "reap_veto": 0.05}, "ops": {"die": 0.1, "fault": 0.08, "check": 0.2},
             "req": {"ssr": 0.3, "reload": 0.1, "incr": 0.15, "set": 0.05, "kill": 0.08, "signal": 0.02, "rm": 0.05, "add": 0.05, "quit": 0.0, "ro": 0.15}},
     "C05": {"eperm": 0.08, "stubborn": 0.3, "recipes": {"unsignalable_stop": 0.04, "on_demand_stop": 0.05, "options_observe": 0.05}, "ops": {"wake": 0.4, "check": 0.1},
             "req": {"ssr": 0.28, "reload": 0.12, "incr": 0.08, "set": 0.05, "kill": 0.18, "signal": 0.03, "rm": 0.04, "add": 0.02, "quit": 0.01, "ro": 0.16}},
-    "C06": {"eperm": 0.12, "recipes": {"unsignalable_stop": 0.05}, "ops": {"raw": 0.1, "wake": 0.3}, "req": {}},
+    "C06": {"eperm": 0.12, "recipes": {"unsignalable_stop": 0.05}, "set_hooks": 0.1, "ops": {"raw": 0.1, "wake": 0.3}, "req": {}},
     "C08": {"eperm": 0.10, "recipes": {"unsignalable_stop": 0.05}, "stubborn": 0.2, "ops": {"sig": 0.06, "wake": 0.4}, "req": {"quit": 0.08}},
-    "C09": {"recipes": {"untracked_zombies": 0.06, "sequential_reload_death": 0.05, "reap_veto": 0.04}, "ops": {"die": 0.15, "xkill": 0.08, "check": 0.18},
+    "C09": {"max_age": 0.12, "recipes": {"untracked_zombies": 0.06, "sequential_reload_death": 0.05, "reap_veto": 0.04}, "ops": {"die": 0.15, "xkill": 0.08, "check": 0.18},
             "req": {"incr": 0.25, "set": 0.1, "reload": 0.15, "ssr": 0.2, "kill": 0.08, "signal": 0.02, "rm": 0.02, "add": 0.02, "quit": 0.0, "ro": 0.05}},
     "C10": {"eperm": 0.15, "recipes": {"unsignalable_stop": 0.10}, "hooks": True, "exec_fail": 0.15, "ops": {"wake": 0.25, "check": 0.1}, "req": {}},
     # (with the default weights of the other commands the cumulated weights passed 1 before `ro` and the malformed messages
     # were reached: C11 never sent a read-only request — every weight is spelled out now)
-    "C11": {"recipes": {"singleton_set": 0.04, "options_observe": 0.08}, "ops": {"wake": 0.25}, "set_extra": True, "owner": 0.3,
+    "C11": {"recipes": {"singleton_set": 0.04, "options_observe": 0.08}, "ops": {"wake": 0.25}, "set_extra": True, "owner": 0.3, "set_hooks": 0.12,
             "req": {"ssr": 0.16, "reload": 0.05, "incr": 0.08, "set": 0.2, "kill": 0.1, "signal": 0.1, "rm": 0.03, "add": 0.1, "quit": 0.01,
                     "ro": 0.13}},
     "C14": {"recipes": {"signal_veto": 0.05, "reap_veto": 0.05, "set_hook": 0.08}, "hooks": True, "stubborn": 0.2, "ops": {"wake": 0.45}, "set_hooks": 0.8,
